@@ -101,6 +101,16 @@ type c19gen struct {
 	nodes  []*node
 	fakes  []*fakeRes
 	extras []*fakeRes // resources that must never be closed by the composition
+	// connections a StreamWrappedConnection borrows from an owner outside the composition, who may close
+	// them at any time (the composition itself must not)
+	borrowed []*c19borrowed
+}
+
+type c19borrowed struct {
+	fake        *fakeRes
+	conn        net.Conn // what the owner holds and what was lent: a Safe/Named wrapper over fake
+	desc        string
+	ownerClosed bool
 }
 
 func (g *c19gen) newFake() *fakeRes {
@@ -157,6 +167,18 @@ func (g *c19gen) build(kind string, depth int) *node {
 			return g.wrap("conn", "SimulatedConnection", streams.NewSimulatedConnection(ch.val.(io.ReadWriteCloser), la, ra), ch)
 		default:
 			ch := g.build("stream", depth-1)
+			if c.Chance(1, 2, "borrowed-is-wrapped") {
+				// the borrowed connection is itself a wrapper that knows whether it is closed
+				bf := &fakeRes{name: fmt.Sprintf("lent%d", len(g.borrowed))}
+				var lent net.Conn = streams.NewSafeConnection(bf)
+				desc := "SafeConnection(" + bf.name + ")"
+				if c.Chance(1, 2, "borrowed-named") {
+					lent = streams.NewNamedConnection(lent, "lent")
+					desc = "NamedConnection(" + desc + ")"
+				}
+				g.borrowed = append(g.borrowed, &c19borrowed{fake: bf, conn: lent, desc: desc})
+				return g.wrap("conn", "StreamWrappedConnection[over "+desc+"]", streams.NewStreamConnection(ch.val.(io.ReadWriteCloser), lent), ch)
+			}
 			under := &fakeRes{name: fmt.Sprintf("under%d", len(g.extras))}
 			g.extras = append(g.extras, under)
 			return g.wrap("conn", "StreamWrappedConnection", streams.NewStreamConnection(ch.val.(io.ReadWriteCloser), under), ch)
@@ -273,6 +295,16 @@ func scenarioC19(r *Run) {
 				return false
 			}
 		}
+		for _, b := range g.borrowed {
+			want := 0
+			if b.ownerClosed {
+				want = 1
+			}
+			if b.fake.closes > want {
+				r.FailSig("foreign-resource-closed", "ctor="+root.ctor, "%s: the connection %s that a StreamWrappedConnection only borrows was closed by the composition; composition %s; history %v", when, b.desc, root.path(), hist)
+				return false
+			}
+		}
 		for _, f := range g.extras {
 			if f.closes > 0 {
 				r.FailSig("foreign-resource-closed", "ctor="+root.ctor, "%s: the connection a StreamWrappedConnection only borrows was closed; composition %s; history %v", when, root.path(), hist)
@@ -283,6 +315,17 @@ func scenarioC19(r *Run) {
 	}
 	buf := make([]byte, 8)
 	for i := 0; i < nops && !r.Failed(); i++ {
+		if len(g.borrowed) > 0 && c.Chance(1, 5, "owner-closes-lent-connection") {
+			// the owner of a borrowed connection closes it: none of the composition's business, its own
+			// resources and status must be unaffected
+			b := g.borrowed[c.Pick(len(g.borrowed), "which-lent")]
+			b.conn.Close()
+			b.ownerClosed = true
+			hist = append(hist, "owner.Close("+b.desc+")")
+			r.AddShape("OwnerClose")
+			r.Count("owner_closes_of_borrowed_connection")
+			continue
+		}
 		n := g.nodes[c.Pick(len(g.nodes), "op-node")]
 		if n.ctor == "fake" {
 			// operations are addressed to wrappers; the bare resource is the "disk"
